@@ -416,7 +416,17 @@ impl<'a> CompilerState<'a> {
         &self,
         pairs: Pairs<'a, Rule>,
     ) -> Result<(Expr, HashMap<String, String>), Error> {
-        let literal_counter = Rc::new(Mutex::new(self.literal_counter));
+        self.parse_expr_ex_from(pairs, self.literal_counter)
+    }
+
+    // first_literal: number of the first string literal met (a nested expression continues the numbering of the
+    // enclosing one, or two literals of one statement get the same name)
+    fn parse_expr_ex_from(
+        &self,
+        pairs: Pairs<'a, Rule>,
+        first_literal: usize,
+    ) -> Result<(Expr, HashMap<String, String>), Error> {
+        let literal_counter = Rc::new(Mutex::new(first_literal));
         let literal_strings = Rc::new(Mutex::new(HashMap::<String, String>::new()));
         if pairs.len() == 0 {
             let lit_strs = Rc::into_inner(literal_strings)
@@ -433,7 +443,8 @@ impl<'a> CompilerState<'a> {
                         primary.into_inner().next().unwrap(),
                     ))),
                     Rule::expr => {
-                        let res = self.parse_expr_ex(primary.into_inner())?;
+                        let next_literal = *literal_counter.lock().unwrap();
+                        let res = self.parse_expr_ex_from(primary.into_inner(), next_literal)?;
                         let mut lit_strs = literal_strings.lock().unwrap();
                         for k in &res.1 {
                             lit_strs.insert(k.0.clone(), k.1.clone());
@@ -516,7 +527,8 @@ impl<'a> CompilerState<'a> {
                 Rule::pp => Ok(Expr::PlusPlus(Box::new(lhs?), true)),
                 Rule::call => {
                     let params = if let Some(x) = op.into_inner().next() {
-                        let res = self.parse_expr_ex(x.into_inner())?;
+                        let next_literal = *literal_counter.lock().unwrap();
+                        let res = self.parse_expr_ex_from(x.into_inner(), next_literal)?;
                         let mut lit_strs = literal_strings.lock().unwrap();
                         for k in &res.1 {
                             lit_strs.insert(k.0.clone(), k.1.clone());
@@ -585,7 +597,15 @@ impl<'a> CompilerState<'a> {
         &self,
         pairs: Pairs<'a, Rule>,
     ) -> Result<(Expr, HashMap<String, String>), Error> {
-        let literal_counter = Rc::new(Mutex::new(self.literal_counter));
+        self.parse_expr_init_value_ex_from(pairs, self.literal_counter)
+    }
+
+    fn parse_expr_init_value_ex_from(
+        &self,
+        pairs: Pairs<'a, Rule>,
+        first_literal: usize,
+    ) -> Result<(Expr, HashMap<String, String>), Error> {
+        let literal_counter = Rc::new(Mutex::new(first_literal));
         let literal_strings = Rc::new(Mutex::new(HashMap::<String, String>::new()));
         let res = self
             .pratt_init_value
@@ -595,7 +615,8 @@ impl<'a> CompilerState<'a> {
                         primary.into_inner().next().unwrap(),
                     ))),
                     Rule::expr => {
-                        let res = self.parse_expr_ex(primary.into_inner())?;
+                        let next_literal = *literal_counter.lock().unwrap();
+                        let res = self.parse_expr_ex_from(primary.into_inner(), next_literal)?;
                         let mut lit_strs = literal_strings.lock().unwrap();
                         for k in &res.1 {
                             lit_strs.insert(k.0.clone(), k.1.clone());
@@ -677,7 +698,8 @@ impl<'a> CompilerState<'a> {
                 Rule::pp => Ok(Expr::PlusPlus(Box::new(lhs?), true)),
                 Rule::call => {
                     let params = if let Some(x) = op.into_inner().next() {
-                        let res = self.parse_expr_ex(x.into_inner())?;
+                        let next_literal = *literal_counter.lock().unwrap();
+                        let res = self.parse_expr_ex_from(x.into_inner(), next_literal)?;
                         let mut lit_strs = literal_strings.lock().unwrap();
                         for k in &res.1 {
                             lit_strs.insert(k.0.clone(), k.1.clone());
